@@ -209,83 +209,85 @@ def run(chk):
     chk.run("C08.R3", f"{MOD}:__post_init__ of the generators", {}, go_ctor_shapes, construct="constructor store shapes")
 
     # ---------------- R4 grid
-    def grid_rule(value, lo, hi, count, what):
-        """every arange node inside `value` must be arange(lo_i, hi_i, (hi_i - lo_i) / count)"""
-        nodes, lins = [], []
-        walk_sym(value, lambda s: nodes.append(s) if s.op == 'arange' else (lins.append(s) if s.op == 'linspace' else None))
+    # (a) symbolic counts: the only thing read off the term is a float-step `arange(lower, upper, step)` over a domain axis, whose
+    #     number of points is not guaranteed; every other way of writing a grid is left to the concrete tables of (b)
+    def float_step_rule(value, lo, hi, count, what):
         from ..alg import lift
-        if lins and not nodes:
-            # linspace(lower, upper, count): exact count, points in [lower, upper] (upper excluded unless endpoint)
-            for nd in lins:
-                a, b, n, endpoint = nd.args
-                a, b, n = lift(a), lift(b), lift(n)
-                if not any(a == lift(l) and b == lift(h) for l, h in zip(lo, hi)):
-                    raise Violation(what + " bounds", f"{nd}", f"a grid from the lower to the upper bound of one axis {list(zip(lo, hi))}")
-                if n != lift(count):
-                    raise Violation(what + " count", f"{nd} has {n} points", f"{count} points")
-            if len(lins) != len(lo):
-                raise Violation(what + " axes", f"{len(lins)} grid axes", f"{len(lo)}")
-            return f"linspace grid: exactly {count} points per axis inside the domain"
-        if not nodes:
-            raise Inconclusive(f"{what}: no arange / linspace construct found (grid idiom outside the rule's vocabulary)")
+        nodes = []
+        walk_sym(value, lambda s_: nodes.append(s_) if (s_.op == 'arange' and len(s_.args) == 3) else None)
+        hits = 0
         for nd in nodes:
-            if len(nd.args) != 3:
-                raise Violation(what, f"{nd}", "arange(lower, upper, step)")
-            a, b, s = (lift(x) for x in nd.args)
-            ok = False
-            for (l, h) in (zip(lo, hi)):
-                if a == lift(l) and b == lift(h):
-                    ok = True
-                    if (s * lift(count)) != (b - a):
-                        raise Violation(what + " count", f"step {s} gives ({b - a})/({s}) points",
-                                        f"{count} points (step (upper-lower)/{count})")
-            if not ok:
-                raise Violation(what + " bounds", f"{nd}", f"a grid from the lower to the upper bound of one axis {list(zip(lo, hi))}")
-        # bounds and count are right up to rounding: the float step is the finding
-        raise Violation("float-step arange", f"{nodes[0]}: the number of points of arange with a float step is not guaranteed "
-                        f"(e.g. arange(0, 1, 1/49) has 50 points)", f"exactly {count} points for every count and domain")
-
-    SHAPE_ONLY = ('expand_dims', 'reshape', '.reshape', '.flatten', 'squeeze', '.squeeze', 'atleast_1d', 'atleast_2d', '.astype',
-                  'array', 'asarray')
-
-    def only_arange(value, what):
-        """the rule below reads the grid off an arange / linspace term: strip wrappers that only change the shape; any other
-        way of writing a grid (an affine image of an index range, a sliced range, ...) is outside the rule's vocabulary,
-        which is reported as such and never as a violation"""
-        v = value
-        while isinstance(v, Sym):
-            if v.op == 'getitem':
-                idx = v.args[1] if len(v.args) > 1 else None
-                items = idx if isinstance(idx, tuple) and not (idx and idx[0] == 'slice') else (idx,)
-                if not all(i is None or i is Ellipsis or i == ('slice', None, None, None) for i in items):
-                    raise Inconclusive(f"{what}: sliced grid {str(value)[:120]} (outside the rule's vocabulary)")
-                v = v.args[0]
-            elif v.op in SHAPE_ONLY:
-                v = v.args[0]
-            else:
-                break
-        if not (isinstance(v, Sym) and v.op in ('arange', 'linspace')):
-            raise Inconclusive(f"{what}: grid idiom outside the rule's vocabulary: {str(value)[:160]}")
+            a, b, st = (lift(x) for x in nd.args)
+            if not any(a == lift(l) and b == lift(h) for l, h in zip(lo, hi)):
+                continue
+            hits += 1
+            if (st * lift(count)) != (b - a):
+                raise Violation(what + " count", f"step {st} gives ({b - a})/({st}) points", f"{count} points (step (upper-lower)/{count})")
+            raise Violation("float-step arange", f"{nd}: the number of points of arange with a float step is not guaranteed "
+                            f"(e.g. arange(0, 1, 1/49) has 50 points)", f"exactly {count} points for every count and domain")
+        return "no float-step arange over a domain axis"
 
     sites = [
         ("DataGeneratorODE.generate_time_data", lambda: G.ode(method='grid').generate_time_data(Sym('k0'))[1],
-         [K('tmin')], [K('tmax')], K('nt'), True),
+         [K('tmin')], [K('tmax')], K('nt')),
         ("CubicMeshPDENonStatio.generate_time_data", lambda: G.nonstatio(2, method='grid').generate_time_data(Sym('k0'))[1],
-         [K('tmin')], [K('tmax')], K('nt'), True),
+         [K('tmin')], [K('tmax')], K('nt')),
         ("CubicMeshPDEStatio.generate_data[1D]", lambda: G.statio(1, method='grid').generate_data(Sym('kk'))[1],
-         [K('min0')], [K('max0')], K('n'), True),
+         [K('min0')], [K('max0')], K('n')),
         ("CubicMeshPDEStatio.generate_data[2D]", lambda: G.statio(2, method='grid').generate_data(Sym('kk'))[1],
-         [K('min0'), K('min1')], [K('max0'), K('max1')], Sym('sqrt', K('n')), False),
+         [K('min0'), K('min1')], [K('max0'), K('max1')], Sym('sqrt', K('n'))),
         ("DataGeneratorParameter.generate_data", lambda: G.param(keys=('nu',), method='grid').generate_data({'nu': Sym('a')})[1]['nu'],
-         [K('nu_lo')], [K('nu_hi')], K('n_p'), True),
+         [K('nu_lo')], [K('nu_hi')], K('n_p')),
     ]
-    for name, mk, lo, hi, count, plain in sites:
-        def go(mk=mk, lo=lo, hi=hi, count=count, plain=plain, name=name):
-            v = mk()
-            if plain:
-                only_arange(v, name)
-            return grid_rule(v, lo, hi, count, name)
-        chk.run("C08.R4", f"{MOD}:{name}", {"method": "grid"}, go, construct=f"grid {name}")
+    for name, mk, lo, hi, count in sites:
+        chk.run("C08.R4", f"{MOD}:{name}", {"method": "grid", "count": "symbolic"},
+                (lambda mk=mk, lo=lo, hi=hi, count=count, name=name: float_step_rule(mk(), lo, hi, count, name)), construct=f"grid {name}")
+
+    # (b) concrete small counts, generators built by their constructors: with a concrete count linspace / arange are the vectors of
+    #     their points as polynomials in the bounds, so the store is a concrete table that must hold exactly the points
+    #     lower + (upper - lower) k / m, k = 0..m-1 (first point = lower bound, all below the upper bound, exact count),
+    #     however the grid is written
+    from fractions import Fraction as _Fr
+    from ..alg import lift as _lift
+
+    def expect_1d_grid(v, lo, hi, m, shape, what):
+        if isinstance(v, Sym):
+            raise Inconclusive(f"{what}: the grid is not built from concrete-count vectors: {str(v)[:160]}")
+        v = expect_axes(v, shape, what)
+        got = [str(p) for p in v.entries()]
+        want = [str(_lift(lo) + (_lift(hi) - _lift(lo)) * _Fr(k, m)) for k in range(m)]
+        if sorted(got) != sorted(want):
+            raise Violation(what, f"stored grid {got}", f"the {m} points lower + (upper - lower) k / {m}: {want}")
+        return f"{m} points: lower + (upper - lower) k / {m}"
+
+    def go_ode_grid(m):
+        gen = G.cls("DataGeneratorODE")(Sym('key'), m, K('tmin'), K('tmax'), 2, method='grid')
+        return expect_1d_grid(gen.fields['times'], K('tmin'), K('tmax'), m, (m,), "DataGeneratorODE times")
+
+    def go_ns_time_grid(m):
+        gen = G.cls("CubicMeshPDENonStatio")(key=Sym('key'), n=4, nb=None, omega_batch_size=2, omega_border_batch_size=None, dim=1,
+                                             min_pts=(K('min0'),), max_pts=(K('max0'),), method='grid', temporal_batch_size=2,
+                                             tmin=K('tmin'), tmax=K('tmax'), nt=m)
+        a = expect_1d_grid(gen.fields['times'], K('tmin'), K('tmax'), m, (m,), "CubicMeshPDENonStatio times")
+        b = expect_1d_grid(gen.fields['omega'], K('min0'), K('max0'), 4, (4, 1), "CubicMeshPDENonStatio omega (1-D)")
+        return a + "; " + b
+
+    def go_statio_1d_grid(m):
+        gen = G.cls("CubicMeshPDEStatio")(key=Sym('key'), n=m, nb=None, omega_batch_size=2, omega_border_batch_size=None, dim=1,
+                                          min_pts=(K('min0'),), max_pts=(K('max0'),), method='grid')
+        return expect_1d_grid(gen.fields['omega'], K('min0'), K('max0'), m, (m, 1), "CubicMeshPDEStatio omega (1-D)")
+
+    def go_param_grid(m):
+        gen = G.cls("DataGeneratorParameter")(Sym('key'), m, 2, {"nu": (K('nu_lo'), K('nu_hi')), "th": (K('th_lo'), K('th_hi'))}, 'grid')
+        msgs = []
+        for k_ in ('nu', 'th'):
+            msgs.append(expect_1d_grid(gen.fields['param_n_samples'][k_], K(f'{k_}_lo'), K(f'{k_}_hi'), m, (m, 1),
+                                       f"DataGeneratorParameter samples[{k_}]"))
+        return "; ".join(msgs)
+    for m in (4, 5):
+        for nm, fn_ in (("DataGeneratorODE.generate_time_data", go_ode_grid), ("CubicMeshPDENonStatio.generate_time_data", go_ns_time_grid),
+                        ("CubicMeshPDEStatio.generate_data[1D]", go_statio_1d_grid), ("DataGeneratorParameter.generate_data", go_param_grid)):
+            chk.run("C08.R4", f"{MOD}:{nm}", {"method": "grid", "count": m}, (lambda fn_=fn_, m=m: fn_(m)), construct=f"grid table {nm}")
 
     # ---------------- R4 (continued): the assembled grid for dim >= 2, on small concrete counts: linspace with a concrete count is
     # the vector of its points as polynomials in the bounds, so the store is a concrete table whose rows must be exactly the
